@@ -504,8 +504,11 @@ func rateScenarios(tier string) []hx.Scenario {
 			bound := b
 			if k < 0 {
 				bound = 0
-			} else if size > 8<<20 && bound > 1 {
-				bound = 1 // 64 MiB bodies: one deviation
+			} else if size > 1<<20 && bound > 1 {
+				bound = 1 // bodies of several MiB: one deviation
+			}
+			if size > 8<<20 && k > 0 && k != 3 && k != nw-1 {
+				continue // 64 MiB bodies: the reset after 0, 3 and 11 writes only
 			}
 			name := fmt.Sprintf("rate/rate=%d/burst=%d/reset=false/B=%d", co.rate, co.burst, bound)
 			if k >= 0 {
